@@ -8,7 +8,7 @@ Model: AgVerif.Cfg — block bounds of `_create_basic_block`, `special_ins` of `
 (`DCode.get_ins_off`), the offsets `_create_xref` takes from `get_instructions_idx`.
 All theorems hold for every instruction stream and try table.
 -/
-import AgVerif.Proof.CfgSpec
+import AgVerif.Proof.CfgSucc
 namespace AgVerif.C40
 open AgVerif.Cfg AgVerif.Spec.Cfg AgVerif.Gen.CfgOps
 
@@ -21,7 +21,8 @@ theorem idx_pairs_pure : idxPairsPure = true ∧
     ∀ (m : List Ins) (o : Nat) (i : Ins), (o, i) ∈ withOff 0 m ↔ InsnAtM m o i :=
   ⟨rfl, fun _ _ _ => mem_withOff_insnAt⟩
 
-/-- the offsets of the pairs are strictly the prefix sums: first pair at 0, each next one `len` later -/
+/-- the offsets of the pairs are strictly the prefix sums: first pair at 0, each next one `len` later
+    (definitional unfolding of the model's `withOff`, kept for readability) -/
 theorem idx_pairs_running_sum (s : Nat) (i : Ins) (r : List Ins) :
     withOff s (i :: r) = (s, i) :: withOff (s + i.len) r := rfl
 
@@ -36,7 +37,10 @@ theorem block_bounds_are_insn_offsets {m : List Ins} {ex : List Exc} {b : Block}
     left; rw [← hcs]; exact ⟨j, hj⟩
 
 /-- Every offset at which a cross-reference of one of the four kinds is recorded is the offset of
-    an instruction whose opcode passes that kind's test. -/
+    an instruction whose opcode passes that kind's test.  (True by construction of the model's
+    `xrefSites`, a filter over `withOff 0 m`; its content about the CODE is that `_create_xref` takes its
+    offsets from `get_instructions_idx` and that generator is pure — `idx_pairs_pure` — plus the
+    correspondence.) -/
 theorem xref_offsets_are_insn_offsets (m : List Ins) (test : Nat → Bool) {o : Nat}
     (h : o ∈ xrefSites m test) : ∃ i, InsnAtM m o i ∧ test i.op = true := by
   unfold xrefSites at h
@@ -130,6 +134,44 @@ theorem switch_targets_from_linked_payload (m : List Ins) (idx : Nat) (i : Ins)
   rw [hal, Int.add_zero, Int.add_comm]
   rfl
 
+/-- With instructions of ≥ 1 code unit (so that one offset holds one instruction): if the disassembly
+    reports `p` at the offset a payload-using instruction encodes, `special_ins` links exactly `p` —
+    "the payload", not merely "whatever `get_ins_off` returned". -/
+theorem special_ins_links_the_payload {m : List Ins} {ex : List Exc} (hm : MinLen m) {b : Block}
+    (hb : b ∈ blocks m ex) {idx : Nat} {r : Option (Nat × Ins)} (h : (idx, r) ∈ specialIns m b) :
+    ∃ i, InsnAtM m idx i ∧ isSpecial i.op = true ∧
+      ∀ (o : Nat) (p : Ins), (o : Int) = (idx : Int) + i.refOff * 2 → InsnAtM m o p → r = some (o, p) := by
+  unfold specialIns at h
+  simp only [List.mem_filterMap] at h
+  obtain ⟨⟨o', i⟩, hmem, hv⟩ := h
+  split at hv
+  · rename_i hs
+    simp only [Option.some.injEq, Prod.mk.injEq] at hv
+    obtain ⟨rfl, rfl⟩ := hv
+    refine ⟨i, block_insnAt hb hmem, hs, ?_⟩
+    intro o p ho hp
+    show insOff m ((o' : Int) + i.refOff * 2) = some (o, p)
+    rw [← ho]
+    exact insOff_of_insnAt hm hp
+  · simp at hv
+
+/-- Any alignment, misaligned payloads included: the case targets `determineNext` uses for a switch at
+    `idx` are those of the switch payload the disassembly has at `a + switchPad a`, `a = idx + 2·ref_off`
+    being the encoded offset that `special_ins` links. -/
+theorem switch_targets_any_alignment (m : List Ins) (idx : Nat) (i : Ins) (hop : i.op ∈ basicOps)
+    (hf : flowOf i.op = Flow.switch) :
+    next m idx i = ((idx + i.len : Nat) : Int) ::
+      (rawTargets m (i.refOff * 2 + (idx : Int) + switchPad (i.refOff * 2 + (idx : Int)))).map
+        (fun t => t * 2 + (idx : Int)) :=
+  next_switch_general m idx i hop hf
+
+/-- The padding rounds the encoded offset up to the next multiple of 4 (0 ≤ pad < 4), and is 0 exactly
+    for an aligned payload: so for a MISALIGNED payload `determineNext` looks 1–3 bytes past the
+    instruction `special_ins` links — the two lookups agree iff the payload is 4-byte aligned. -/
+theorem switch_pad_rounds_up (a : Int) : 0 ≤ switchPad a ∧ switchPad a < 4 ∧ (a + switchPad a) % 4 = 0 ∧
+    (switchPad a = 0 ↔ a % 4 = 0) :=
+  switchPad_spec a
+
 /-! Non-vacuity: `packed-switch v0, +4 ; return-void ; nop ; packed-switch-payload{2 targets}`. -/
 def exM : List Ins :=
   [⟨6, 0x2b, 4, 0, [], false⟩, ⟨2, 0x0e, 0, 0, [], false⟩, ⟨16, 0x100, 0, 1, [3, 3], false⟩]
@@ -139,5 +181,16 @@ example : (blocks exM []).map (fun b => (specialIns exM b).map (fun p => (p.1, p
     [[(0, some 8)], [], []] := by decide
 example : switchPad ((4 : Int) * 2 + ((0 : Nat) : Int)) = 0 := by decide
 example : xrefSites [⟨6, 0x71, 0, 0, [], true⟩, ⟨2, 0x0e, 0, 0, [], false⟩] isXrefMethod = [0] := by decide
+
+/-! A misaligned payload (`packed-switch v0,+3 ; return-void ; payload` at byte 6): `special_ins` links the
+    payload at 6, `determineNext` reads at 6 + 2 = 8 where no instruction starts, so the switch gets only
+    its fall-through (what the code does; the verifier rejects such a method — DESIGN §10). -/
+def exMis : List Ins :=
+  [⟨4, 0x2b, 3, 0, [], false⟩, ⟨2, 0x0e, 0, 0, [], false⟩, ⟨16, 0x100, 0, 1, [2, 2], false⟩]
+example : switchPad ((3 : Int) * 2 + ((0 : Nat) : Int)) = 2 := by decide
+example : (blocks exMis []).map (fun b => (specialIns exMis b).map (fun p => (p.1, p.2.map (·.1)))) =
+    [[(0, some 6)], [], []] := by decide
+example : next exMis 0 ⟨4, 0x2b, 3, 0, [], false⟩ = [4] := by decide
+example : MinLen exM := by unfold MinLen; decide
 
 end AgVerif.C40
